@@ -445,6 +445,7 @@ def work(arg: T.Tuple[dict, str, int, bool]) -> dict:
         res['prefix'] = prefix
         res['A'] = A
         ents = expected_entries(spec, A)
+        res['glue'] = glue_requests(spec, R, bld, prefix, A)
         rng = random.Random(seed)
         for i, sel in enumerate(spec.get('selections') or selections(spec, ents, rng, deep)):
             dd = os.path.join(R, f'dest{i}')
@@ -460,6 +461,70 @@ def work(arg: T.Tuple[dict, str, int, bool]) -> dict:
                 res['escaped'] = q
                 common.rmtree(q)
     return res
+
+
+# ------------------------------------------------------------------ the backend glue: model vs. the real install.dat
+
+def glue_requests(spec: dict, R: str, bld: str, prefix: str, A: str) -> T.List[T.Tuple[str, str, str]]:
+    """(what, driver request, value found in the real unpickled InstallData) for every rule's destination string"""
+    from mesonbuild import minstall
+    from .common import enc
+    d = minstall.load_install_data(os.path.join(bld, 'meson-private', 'install.dat'))
+    src = os.path.join(R, 'src')
+    opts = spec['opts']
+    out: T.List[T.Tuple[str, str, str]] = []
+
+    def opt(v: T.Optional[str]) -> str:
+        return ('1|' + enc(v)) if v is not None else '0|'
+
+    def find(lst, path):
+        hits = [e for e in lst if e.path == path]
+        return hits[0] if len(hits) == 1 else None
+
+    for r in spec['rules'] + spec['sub_rules']:
+        base = 'subprojects/sp' if r['sub'] else ''
+        idir = r.get('install_dir')
+        idir = idir.replace('{A}', A) if idir is not None else None
+        rel = lambda p: os.path.relpath(p, base) if base else p   # noqa: E731
+        if r['kind'] == 'data':
+            dd = idir if idir is not None else os.path.join(opts['datadir'], spec['proj'] if not r['sub'] else 'sp')
+            for i, sfile in enumerate(r['srcs']):
+                e = find(d.data, os.path.join(src, sfile))
+                if e is None:
+                    continue
+                ren = r['rename'][i] if r.get('rename') else None
+                out.append(('data', f'gdata {enc(dd)}|{opt(ren)}|{int(bool(r.get("preserve_path")))}|{enc(rel(sfile))}', e.install_path))
+        elif r['kind'] == 'headers':
+            for sfile in r['srcs']:
+                e = find(d.headers, os.path.join(src, sfile))
+                if e is None:
+                    continue
+                out.append(('headers', f'ghdr {enc(opts["includedir"])}|{opt(idir)}|{opt(r.get("subdir"))}|'
+                            f'{int(bool(r.get("preserve_path")))}|{enc(rel(sfile))}', e.install_path))
+        elif r['kind'] == 'man':
+            for sfile in r['srcs']:
+                e = find(d.man, os.path.join(src, sfile))
+                if e is None:
+                    continue
+                out.append(('man', f'gman {enc(opts["mandir"])}|{opt(idir)}|{opt(r.get("locale"))}|{enc(rel(sfile))}', e.install_path))
+        elif r['kind'] == 'subdir':
+            e = find(d.install_subdirs, os.path.join(src, r['name']))
+            if e is None:
+                continue
+            out.append(('subdir-src', f'gsubsrc {enc(src)}|{enc(base)}|{enc(rel(r["name"]))}', e.path))
+            out.append(('subdir', f'gsub {enc(prefix)}|{enc(idir)}|{enc(e.path)}|{int(r["strip"])}', e.install_path))
+        elif r['kind'] == 'symlink':
+            name = os.path.join(idir, r['name'])
+            hits = [e for e in d.symlinks if e.target == r['target'] and os.path.basename(e.name) == r['name']]
+            if len(hits) == 1:
+                out.append(('symlink', f'gsym {enc(idir)}|{enc(r["name"])}', hits[0].name))
+        elif r['kind'] == 'configure':
+            bdir = bld if not r['sub'] else os.path.join(bld, 'subprojects/sp')
+            e = find(d.data, os.path.join(bdir, r['output']))
+            if e is None:
+                continue
+            out.append(('configure', f'gdata {enc(idir)}|0||0|{enc(r["output"])}', e.install_path))
+    return out
 
 
 # ------------------------------------------------------------------ oracle
@@ -567,6 +632,20 @@ def run_stream(ctx, scratch_base: T.Callable[[], str], nproj: int) -> None:
     for spec, res in zip(specs, results):
         judge_project(ctx, spec, res)
     ctx.tag('e2e-projects', len(specs))
+    # the glue model against the real InstallData
+    from .common import enc as _enc
+    lines, wants, owners = [], [], []
+    for spec, res in zip(specs, results):
+        for what, line, val in res.get('glue', []):
+            lines.append(line); wants.append(_enc(val)); owners.append((spec['name'], what))
+    ctx.count(len(lines))
+    if ctx.model_available and lines:
+        got = ctx.driver('install', lines)
+        for l, w, g, o in zip(lines, wants, got, owners):
+            ctx.tag('glue:' + o[1])
+            if w != g:
+                ctx.disagreement({'kind': 'glue', 'project': o[0], 'rule': o[1], 'line': l,
+                                  'impl': common.dec(w), 'model': common.dec(g) if g and g[0].isdigit() else g})
 
 
 def replay_e2e(ctx, spec: dict, scratch_base: T.Callable[[], str]) -> None:
